@@ -17,7 +17,7 @@ CLAIMED = {
 W = "deterministic simulation: multi-party world (key owners, issuers, verifiers on both providers) with an adversarial in-memory transport, a simulated clock that also steps back, and injected allocation failures inside verify/generate/key import (soundness monitors stay in force under them); seeded fault/schedule search; monitors as implications against reference oracles"
 WN = 'Trusts OpenSSL EVP (called directly on simulator-generated ground-truth keys) as the signature oracle, the reference base64url/token reader, and jansson for JSON values. Sampling over seeds, not proof.'
 CLAIMED.update({
-    "C01": ("exploration", "DESIGN.md 4/C01", W, "Every delivery - pristine, damaged, spliced, re-signed with attacker-computable keys, re-framed, misrouted - to a verifier holding a key is judged: accepted => the third segment is a valid signature under the verifier's ground-truth key and the header's algorithm (lenient reference reading), on both providers.", WN),
+    "C01": ("exploration", "DESIGN.md 4/C01", W + "; every eighth run interleaves caller threads under the seeded scheduler (a forger verifying its own header and payload under the MAC of the token another thread is verifying)", "Every delivery - pristine, damaged, spliced, re-signed with attacker-computable keys, re-framed, misrouted - to a verifier holding a key is judged: accepted => the third segment is a valid signature under the verifier's ground-truth key and the header's algorithm (lenient reference reading), on both providers.", WN),
     "C02": ("exploration", "DESIGN.md 4/C02", W + "; stratified over explicit alg x key kind x route", "setkey admission table, pin (accepted/emitted alg == pinned alg), key family, for setkey and callback-selected pairs, on checkers and builders; header alg variants incl. case variants, unknown, missing, non-string; attacker-computable HMAC keys.", WN),
     "C03": ("exploration", "DESIGN.md 4/C03", W, "Unsigned-token rules on checkers (key by setkey or callback => never accept empty signature / alg none; no key => only alg 'none' with empty third segment) and builders (key by setkey or callback => never unsigned).", WN),
     "C05": ("exploration", "DESIGN.md 4/C05", W + "; signer randomness from the simulated entropy stream; every eighth run interleaves caller threads under the seeded scheduler and judges their tokens and verdicts by the same reference", "Issue -> pristine delivery -> verify across all (issuer provider, verifier provider) pairs and key types; must accept; header/claims read in the checker callback json_equal to builder input plus library members; short ECDSA r/s counted by probes.", WN),
